@@ -31,6 +31,7 @@ pub enum Decl {
     Track,
     Tls,
     Lazy,
+    Waker,
 }
 
 #[derive(Clone, Copy, Debug, PartialEq)]
@@ -88,6 +89,9 @@ pub enum Op {
     ArcGetMut(usize, usize),
     ArcTryUnwrap(usize, usize),
     TrackDrop(usize),
+    BlockOn(usize, usize, usize),
+    Wake(usize),
+    TakeWaker(usize),
     TlsWith(usize),
     LazyGet(usize),
     Panic,
@@ -200,6 +204,9 @@ fn parse_op(s: &str) -> Result<Op, String> {
         "ag" => Op::ArcGetMut(num(a(1)?)?, num(a(2)?)?),
         "au" => Op::ArcTryUnwrap(num(a(1)?)?, num(a(2)?)?),
         "td" => Op::TrackDrop(num(a(1)?)?),
+        "bo" => Op::BlockOn(num(a(1)?)?, num(a(2)?)?, num(a(3)?)?),
+        "wk" => Op::Wake(num(a(1)?)?),
+        "tkw" => Op::TakeWaker(num(a(1)?)?),
         "tw" => Op::TlsWith(num(a(1)?)?),
         "lz" => Op::LazyGet(num(a(1)?)?),
         "pn" => Op::Panic,
@@ -250,6 +257,7 @@ pub fn parse_prog(line: &str) -> Result<Prog, String> {
             "T" => Decl::Track,
             "L" => Decl::Tls,
             "Z" => Decl::Lazy,
+            "W" => Decl::Waker,
             _ => return Err(format!("bad decl {d}")),
         });
     }
